@@ -125,3 +125,125 @@ def norm_top(v, toks):
         return ("HDR", toks[0].kind)
     return norm(v)
 
+
+
+# ---------------------------------------------------------------- reference ENCODER (independent of msgpack / flow.record)
+class Bin(bytes):
+    """force the bin family"""
+
+
+class RawExt:
+    def __init__(self, code, data):
+        self.code, self.data = code, bytes(data)
+
+
+def pack(o):
+    """msgpack-encode plain Python structures: None, bool, int, float, str (utf-8 + surrogateescape), bytes (bin),
+    list/tuple (array), dict (map), RawExt."""
+    if o is None:
+        return b"\xc0"
+    if o is True:
+        return b"\xc3"
+    if o is False:
+        return b"\xc2"
+    if isinstance(o, int):
+        if 0 <= o <= 0x7F:
+            return struct.pack("B", o)
+        if -32 <= o < 0:
+            return struct.pack("b", o)
+        if 0 <= o <= 0xFF:
+            return b"\xcc" + struct.pack("B", o)
+        if 0 <= o <= 0xFFFF:
+            return b"\xcd" + struct.pack(">H", o)
+        if 0 <= o <= 0xFFFFFFFF:
+            return b"\xce" + struct.pack(">I", o)
+        if 0 <= o <= 0xFFFFFFFFFFFFFFFF:
+            return b"\xcf" + struct.pack(">Q", o)
+        if -0x80 <= o < 0:
+            return b"\xd0" + struct.pack("b", o)
+        if -0x8000 <= o < 0:
+            return b"\xd1" + struct.pack(">h", o)
+        if -0x80000000 <= o < 0:
+            return b"\xd2" + struct.pack(">i", o)
+        if -0x8000000000000000 <= o < 0:
+            return b"\xd3" + struct.pack(">q", o)
+        raise OverflowError("integer beyond msgpack's native range: use ext_varint")
+    if isinstance(o, float):
+        return b"\xcb" + struct.pack(">d", o)
+    if isinstance(o, str):
+        b = o.encode("utf-8", "surrogateescape")
+        n = len(b)
+        if n <= 31:
+            return struct.pack("B", 0xA0 | n) + b
+        if n <= 0xFF:
+            return b"\xd9" + struct.pack("B", n) + b
+        if n <= 0xFFFF:
+            return b"\xda" + struct.pack(">H", n) + b
+        return b"\xdb" + struct.pack(">I", n) + b
+    if isinstance(o, (bytes, bytearray)):
+        n = len(o)
+        if n <= 0xFF:
+            return b"\xc4" + struct.pack("B", n) + bytes(o)
+        if n <= 0xFFFF:
+            return b"\xc5" + struct.pack(">H", n) + bytes(o)
+        return b"\xc6" + struct.pack(">I", n) + bytes(o)
+    if isinstance(o, (list, tuple)):
+        n = len(o)
+        head = struct.pack("B", 0x90 | n) if n <= 15 else (b"\xdc" + struct.pack(">H", n) if n <= 0xFFFF else b"\xdd" + struct.pack(">I", n))
+        return head + b"".join(pack(x) for x in o)
+    if isinstance(o, dict):
+        n = len(o)
+        head = struct.pack("B", 0x80 | n) if n <= 15 else (b"\xde" + struct.pack(">H", n) if n <= 0xFFFF else b"\xdf" + struct.pack(">I", n))
+        return head + b"".join(pack(k) + pack(v) for k, v in o.items())
+    if isinstance(o, RawExt):
+        n = len(o.data)
+        if n in (1, 2, 4, 8, 16):
+            return {1: b"\xd4", 2: b"\xd5", 4: b"\xd6", 8: b"\xd7", 16: b"\xd8"}[n] + struct.pack("b", o.code) + o.data
+        if n <= 0xFF:
+            return b"\xc7" + struct.pack("B", n) + struct.pack("b", o.code) + o.data
+        if n <= 0xFFFF:
+            return b"\xc8" + struct.pack(">H", n) + struct.pack("b", o.code) + o.data
+        return b"\xc9" + struct.pack(">I", n) + struct.pack("b", o.code) + o.data
+    raise TypeError(type(o))
+
+
+def ext(sub, payload):
+    """the record-stream extension value: ext type 14 wrapping msgpack([sub-type, payload])"""
+    return RawExt(EXT, pack([sub, payload]))
+
+
+def ext_varint(n):
+    neg = n < 0
+    v = abs(n)
+    return ext(T_VARINT, [neg, Bin(v.to_bytes((v.bit_length() + 7) // 8, "big"))])
+
+
+def ext_datetime_utc(y, mo, d, h, mi, s, us):
+    return ext(T_DATETIME, [y, mo, d, h, mi, s, us])
+
+
+def ext_datetime_iso(text):
+    return ext(T_DATETIME, [text])
+
+
+def frame(value):
+    body = pack(value)
+    return struct.pack(">I", len(body)) + body
+
+
+def header_frame():
+    return frame(Bin(MAGIC))
+
+
+def descriptor_frame(name, fields):
+    """fields: sequence of (typename, fieldname)"""
+    return frame(ext(T_DESC, [name, [[t, n] for t, n in fields]]))
+
+
+def record_value(name, fields, values, identifier="tuple"):
+    ident = [name, descriptor_hash(name, fields)] if identifier == "tuple" else name
+    return ext(T_RECORD, [ident, list(values)])
+
+
+def record_frame(name, fields, values, identifier="tuple"):
+    return frame(record_value(name, fields, values, identifier))
